@@ -30,6 +30,9 @@ checks = {
  "C18": ("exploration", "bounded-exhaustive enumeration of package directories (file-kind alphabet x function-header alphabet) fed to the real test_gen binary in both modes, compared with a go/parser reference extractor; generated Go files compiled",
          "For every enumerated directory both generators emit exactly the reference list of tests in order with correct Fail marking and agree with each other; distinct generated Go files compile against their package.",
          "gofmt-formatted packages whose test functions are func() bool; alphabet bounds", "2 C18"),
+ "C17": ("model_checking", "explicit-state BFS over invocations of the real goose binary (flags x pattern sets x -dir) from every reached out-directory state, against a reference model of exit status / files / rewrite; go list -tags goose as ground truth for source selection",
+         "Every invocation sequence up to depth 2 from three seed out-dir states satisfies exit status, placement, nothing-written-on-error, partial output == translated declarations, no rewrite of unchanged files, and build-tag/pattern/-dir source selection.",
+         "content judged against the binary's own solo translation; load-failure stray file not judged; no permission-based states (root)", "2 C17"),
 }
 todo = {}
 man = {
